@@ -12,7 +12,7 @@
    `min_paren` renders an abstract tree with the fewest parentheses the table
    allows.  No proofs here. *)
 From Coq Require Import List NArith ZArith Bool Arith.
-From NV Require Import Syntax.Token Syntax.Ast Syntax.StrEsc Syntax.Parser.
+From NV Require Import Syntax.Token Syntax.Ast Syntax.StmtAst Syntax.StrEsc Syntax.Parser.
 Import ListNotations.
 Local Open Scope nat_scope.
 
@@ -239,7 +239,7 @@ Definition wf_stmt (s : sst) : bool :=
 Definition desugar_stmt (s : sst) : stmt :=
   match s with
   | SSExpr t => StExpr (desugar t)
-  | SSLet n t => StLet n (desugar t)
+  | SSLet n t => StLet (mk_defvar n None [] (desugar t))
   | SSProc k args => StProc k (map desugar args)
   end.
 
